@@ -35,27 +35,36 @@ def space_rule(width):
     raise common.HarnessError('cell of width {} too small for the interval rule precondition'.format(width))
 
 
-def setup(problem, domain, exact, h):
-    key = (problem, domain, exact, h)
+def setup(problem, domain, exact, h, life=False):
+    """life=False: mesh refined first, operators created on the final mesh.  life=True: the driver's own lifecycle - operators
+    and estimator are created on the INITIAL mesh and serve one full loop iteration there (assemble, solve, residual, which
+    re-registers the elements with the operator); the bisection history is applied afterwards and the SAME objects serve the
+    refined mesh."""
+    key = (problem, domain, exact, h, life)
     if key in _D:
         return _D[key]
     _D.clear()
     drv = driver.Driver()
     ns = drv.namespace(problem, domain, exact)
     mesh = drv.make_mesh(ns)
+    if life:
+        drv.setup_operators(ns)
+        drv.solve(ns)
     for rect, ax in h:
         mesh.refine_axis(find_leaf(mesh, rect), ax)
-    drv.setup_operators(ns)
+    if not life:
+        drv.setup_operators(ns)
     drv.solve(ns)
     _D[key] = ns
     return ns
 
 
 def task(item):
-    problem, domain, exact, h, idx = item
+    problem, domain, exact, h, idx = item[:5]
+    life = bool(item[5]) if len(item) > 5 else False
     out = {'n': 0, 'viol': None, 'ratio': 0.0, 'skipped': 0}
     try:
-        ns = setup(problem, domain, exact, h)
+        ns = setup(problem, domain, exact, h, life)
     except Exception as ex:
         import traceback
         out['viol'] = ('driver-raised', {'exc': repr(ex), 'tb': traceback.format_exc()[-600:]})
@@ -155,6 +164,19 @@ def run(ctx):
                 meshes['{}/{}/exact={}'.format(problem, domain, exact)] = meshes.get('{}/{}/exact={}'.format(problem, domain, exact), 0) + 1
                 for idx in range(n_leaves):
                     items.append((problem, domain, exact, h, idx))
+    # the driver's lifecycle (operators created before the refinement) on every depth-1 state (thorough: depth <= 2) of selected
+    # combinations, incl. one with initial data
+    life_plan = [('Dirichlet', 'UnitSquare', False), ('MildSingular', 'Circle', False), ('Singular', 'UnitSquare', False)] if ctx.tier == 'quick' else \
+        [(p_, d_, e_) for p_, d_ in (('Dirichlet', 'UnitSquare'), ('Dirichlet', 'LShape'), ('MildSingular', 'Circle'), ('Singular', 'UnitSquare'), ('Smooth', 'PiSquare')) for e_ in (False, True)]
+    n_life = 0
+    for problem, domain, exact in life_plan:
+        cfgname = driver.DOMAIN_CFG[domain]
+        hs = [h for h in meshmc.all_states(ctx, cfgname, 1 if (ctx.tier == 'quick' or problem in ('Singular', 'Smooth')) else 2, key='leaf') if h]
+        for h in hs:
+            n_leaves = len(meshmc.build(meshmc.CFGS[cfgname], h).leaf_elements)
+            n_life += 1
+            for idx in range(n_leaves):
+                items.append((problem, domain, exact, h, idx, True))
     # keep items of one mesh adjacent (setup is cached per worker) but spread meshes over workers
     res = pmap(task, items, ctx.jobs, chunksize=max(1, len(items) // (ctx.jobs * 12)))
     n = skipped = 0
@@ -166,9 +188,10 @@ def run(ctx):
         worst[k] = max(worst.get(k, 0.0), r['ratio'])
         if r['viol']:
             tag, v = r['viol']
-            ctx.violation({'tag': tag, 'problem': it[0], 'domain': it[1], 'exact': it[2]},
-                          '{} for {} on {} (switch {}) after history {}: {}'.format(tag, it[0], it[1], it[2], list(it[3]), v),
-                          {'problem': it[0], 'domain': it[1], 'exact': it[2], 'history': [[list(r_), ax] for r_, ax in it[3]], 'idx': it[4]})
+            life = len(it) > 5 and it[5]
+            ctx.violation({'tag': tag + ('|operators-created-before-refinement' if life else ''), 'problem': it[0], 'domain': it[1], 'exact': it[2]},
+                          '{} for {} on {} (switch {}) after history {}{}: {}'.format(tag, it[0], it[1], it[2], list(it[3]), ' applied AFTER the operators were created and had served the initial mesh' if life else '', v),
+                          {'problem': it[0], 'domain': it[1], 'exact': it[2], 'history': [[list(r_), ax] for r_, ax in it[3]], 'idx': it[4], 'lifecycle': bool(life)})
     # call histories across problems / domains in one process (all ordered pairs of the combinations with initial data, plus
     # one Dirichlet partner each)
     m0 = [c for c in driver.COMBOS if c[0] in ('Smooth', 'Singular')]
@@ -193,7 +216,7 @@ def run(ctx):
     cov = {'evaluations': n, 'distinct_nontrivial': n,
            'rule': 'one case = (problem, domain, switch, leaf-set-distinct mesh state, leaf); distinct by construction; meshes containing a leaf of aspect > 32 skipped',
            'meshes_per_combination': meshes, 'worst_ratio_abs_int_r_over_int_abs_r': {k: float('%.3g' % v) for k, v in sorted(worst.items())},
-           'elements_skipped_by_aspect': skipped, 'cross_problem_histories_in_fresh_processes': len(hitems), 'history_leaf_checks': nH, 'rule_points_per_cell': [len(XT), 'space: 5-point, 1-4 geometric levels per side chosen so that nodes stay >= 2e-5 from the cell ends'],
+           'elements_skipped_by_aspect': skipped, 'meshes_served_by_operators_created_before_refinement': n_life, 'cross_problem_histories_in_fresh_processes': len(hitems), 'history_leaf_checks': nH, 'rule_points_per_cell': [len(XT), 'space: 5-point, 1-4 geometric levels per side chosen so that nodes stay >= 2e-5 from the cell ends'],
            'samples': [{'problem': items[0][0], 'domain': items[0][1], 'exact': items[0][2], 'history': list(items[0][3]), 'leaf_index': items[0][4]},
                        {'problem': items[-1][0], 'domain': items[-1][1], 'exact': items[-1][2], 'history': list(items[-1][3]), 'leaf_index': items[-1][4]}],
            'exhaustive': True}
@@ -203,6 +226,6 @@ def run(ctx):
 
 def replay(ctx, data):
     h = tuple((tuple(r), ax) for r, ax in data['history'])
-    r = task((data['problem'], data['domain'], data['exact'], h, data['idx']))
+    r = task((data['problem'], data['domain'], data['exact'], h, data['idx'], bool(data.get('lifecycle'))))
     print(r)
     return r['viol'] is None
